@@ -9,8 +9,8 @@ git apply "$PATCH" || { echo "patch does not apply"; exit 2; }
 W=$(mktemp -d /tmp/ptfuzz.XXXX)
 ( cd "$HOME_V" && CARGO_NET_OFFLINE=true cargo +nightly fuzz build --fuzz-dir "$HOME_V/fuzz" -s none pt_cases 2>&1 | grep -E "^error" -A5 )
 for j in $(seq 1 "$JOBS"); do
-  mkdir -p "$W/c$j"; head -c 300 /dev/urandom > "$W/c$j/r0"; head -c 2000 /dev/urandom > "$W/c$j/r1"
-  ( VERIF_DIR="$HOME_V" VERIF_FUZZ_SUB="$KEY" "$HOME_V/fuzz/target/x86_64-unknown-linux-gnu/release/pt_cases" "$W/c$j" -runs="$RUNS" -seed="$j" -len_control=0 -max_len=4096 -timeout=60 -artifact_prefix="$W/a$j-" > "$W/log$j" 2>&1 ) &
+  mkdir -p "$W/c$j"; head -c 300 /dev/urandom > "$W/c$j/r0"; head -c 2000 /dev/urandom > "$W/c$j/r1"; head -c "${MAXLEN:-4096}" /dev/urandom > "$W/c$j/r2"; head -c $(( ${MAXLEN:-4096} * 3 / 4 )) /dev/urandom > "$W/c$j/r3"
+  ( VERIF_DIR="$HOME_V" VERIF_FUZZ_SUB="$KEY" "$HOME_V/fuzz/target/x86_64-unknown-linux-gnu/release/pt_cases" "$W/c$j" -runs="$RUNS" -seed="$j" -len_control=0 -max_len=${MAXLEN:-4096} -timeout=60 -artifact_prefix="$W/a$j-" > "$W/log$j" 2>&1 ) &
 done
 wait
 grep -h "FUZZ-VIOLATION" "$W"/log* | sort | uniq -c | head -5
